@@ -83,7 +83,8 @@ pub fn build_smx(objects: usize, points: usize, triangles: usize, checkpoints: u
     counts.push(b.len());
     b.extend_from_slice(&(checkpoints as i32).to_le_bytes());
     for c in 0..checkpoints {
-        b.extend_from_slice(&(c as i32 - 1).to_le_bytes());
+        let v: i32 = match pattern { 0 => c as i32 - 1, 1 => 40_000 + c as i32 * 70_000, _ => [i32::MAX, i32::MIN][c % 2] };
+        b.extend_from_slice(&v.to_le_bytes());
     }
     FileCase {
         name: format!("smx objects={objects} points={points} triangles={triangles} checkpoints={checkpoints} pattern={pattern} track={:?}", String::from_utf8_lossy(track)),
